@@ -1161,3 +1161,25 @@ Section Series.
     end.
   Proof. destruct c; reflexivity. Qed.
 End Series.
+
+(* ---------- non-vacuity: the Q-algebra hypothesis [divn_ok] holds for the rationals (Qc: canonical
+   fractions with Leibniz equality, ring structure Qcrt) with v / j computed as a quotient ---------- *)
+From Coq Require Import QArith Qcanon.
+Definition Qc_divn (v : Qc) (j : Z) : Qc := (v / Q2Qc (inject_Z j))%Qc.
+Lemma Qc_rnat n : (this (rnat Qc (Q2Qc 0) 1%Qc Qcplus n) == inject_Z (Z.of_nat n))%Q.
+Proof.
+  induction n as [|n IH]; [reflexivity|].
+  cbn [rnat]. unfold Qcplus, Q2Qc. cbn [this].
+  transitivity (1 + inject_Z (Z.of_nat n))%Q.
+  - etransitivity; [apply Qred_correct|]. rewrite IH. reflexivity.
+  - rewrite Nat2Z.inj_succ. unfold Z.succ. rewrite inject_Z_plus. ring.
+Qed.
+Example divn_ok_Qc : divn_ok Qc (Q2Qc 0) 1%Qc Qcplus Qcmult Qc_divn.
+Proof.
+  intros v n Hn. unfold Qc_divn.
+  assert (E : rnat Qc (Q2Qc 0) 1%Qc Qcplus n = Q2Qc (inject_Z (Z.of_nat n))).
+  { apply Qc_is_canon. cbn [this Q2Qc]. rewrite Qred_correct. apply Qc_rnat. }
+  rewrite <- E. apply Qcmult_div_r. intros H0.
+  pose proof (Qc_rnat n) as H. rewrite H0 in H. cbn in H.
+  unfold Qeq in H. cbn in H. lia.
+Qed.
